@@ -365,6 +365,9 @@ func (b *Built) structFor(g *GroupNode, c *CmdNode) reflect.Type {
 				if a.Slice {
 					et = reflect.SliceOf(et)
 				}
+				if a.Map {
+					et = reflect.MapOf(typeByName["string"], et)
+				}
 				var t []string
 				t = append(t, tagKV("positional-arg-name", a.Name))
 				if a.ReqTag != "" {
